@@ -46,6 +46,16 @@ func (p propSpec) Deadline(tier int) time.Duration { return p.DeadlineT[tier] }
 const techSX = "symbolic execution of the real code's go/ssa (GoSX) with SMT (z3) deciding every branch and assertion over all values of the symbolic inputs within the stated bounds; counterexamples replayed natively"
 
 var properties = map[string]propSpec{
+	"C18": {
+		Level: "model_checking", Technique: techSX,
+		Bounds:  [2]string{"9 expressions on a tagged struct datum with symbolic leaves; every ordered pair of distinct option kinds x 3 settings each; repeated options (with an unrelated one in between); 6 neutral settings; unwrap/identity/constant hooks executed symbolically through pointerstructure; budget symbolic above 2^32", "same"},
+		Outside: "option lists longer than 3; hooks outside the three-member family",
+	},
+	"C08": {
+		Level: "model_checking", Technique: techSX + "; self-composition (two runs on data that agree on visible leaves and are independent on hidden ones)",
+		Bounds:  [2]string{"40 expression templates (every operator on hidden/unexported/renamed fields by Go name and tag name, enclosing structs, quantifiers, JSON pointers) x {default tag, alt tag, unknown value} on a struct family (hidden field at top level, nested behind a pointer, in slice elements and map values, a field renamed to a hidden field's Go name); symbolic selector names (<= 2 bytes top level, 1 byte nested) x 8 operators x 2 tags; Filter over slices", "same"},
+		Outside: "struct types outside the family; selector names longer than the symbolic bound",
+	},
 	"C13": {
 		Level: "model_checking", Technique: techSX + "; effect monitor for datum immutability; bounded call histories compared with fresh evaluators",
 		Bounds:  [2]string{"histories of 2 calls (3 datum families: symbolic well-typed, ill-typed/erroring, concrete) over 24 expressions x 4 option sets, third compared with a fresh evaluator; Execute on slices/maps/pointer slices of 3-4 symbolic elements; Expression() on 4 templates with 1-3 symbolic bytes", "histories of 3 calls"},
